@@ -197,10 +197,12 @@ def _random_chunk(args):
     for i in range(count):
         rng = random.Random(base + i)
         cfg, ev = random_scenario(rng, focus)
-        entry = rng.choice(["Retry", "AsyncRetry"])
+        # (policy-level entry points classify once more for the breaker: they are compared in C12)
+        entry = rng.choice(["Retry", "AsyncRetry", "Retry", "AsyncRetry", "Retry.from_config",
+                            "AsyncRetry.from_config"])
         perm = retryenv.class_perm(base + i) if rng.random() < 0.5 else None
         place = rng.choice(["call", "ctor", "both"])
-        acb = rng.choice([False, True, "lambda"]) if entry == "AsyncRetry" else False
+        acb = rng.choice([False, True, "lambda"]) if entry.startswith("Async") else False
         # a multi-run script: split the environment script evenly is unnecessary - queues are
         # global across runs; the deliver markers give the number of runs and the mode
         try:
